@@ -79,6 +79,14 @@ def make(shape: Dict[str, Any]) -> Any:
             # a record-update listener the application attached itself, and a cached record that runs out after the close
             zc.record_manager.async_add_listener(RecListener(cb_log, loop), None)
             zc.cache.async_add_records([VOCAB['A1'].make(15, t0, True)])
+        if 'own-browser' in doing:
+            # a browser the application created itself and never cancels: async_close does not know it; the `done`
+            # gate of the scheduler passes is all that stops it.  A cached pointer gives it a refresh schedule.
+            from zeroconf._services.browser import _ServiceBrowserBase
+
+            zc.cache.async_add_records([VOCAB['P2'].make(ctx.int('own_ptr_ttl', 1125, 7200), t0, False)])
+            own = _ServiceBrowserBase(zc, [T1], handlers=[lambda zeroconf, service_type, name, state_change: cb_log.append((loop.now_ms, state_change.name, name))])
+            own._async_start()
         if 'lookup' in doing:
             info = AsyncServiceInfo(T1, 'Gamma._http._tcp.local.')
             user_tasks.append(loop.create_task(info.async_request(zc, 3000)))
@@ -119,7 +127,7 @@ def make(shape: Dict[str, Any]) -> Any:
         # ---- afterwards: further traffic, hours of virtual time, a second close
         loop.advance_by(50)
         resp = mk_incoming(loop.now_ms, [VOCAB['P2'].make(4500, loop.now_ms, False), VOCAB['S2'].make(120, loop.now_ms, True)])
-        if 'raw-listener' not in doing:  # (a response injected past the closed socket would reach an application-owned listener)
+        if 'raw-listener' not in doing and 'own-browser' not in doing:  # (a response injected past the closed socket would reach an application-owned listener)
             zc.record_manager.async_updates_from_response(resp)
         for qq in ([Q(T1, PTR)], [Q(N1, SRV, True)]):
             m = mk_query(loop.now_ms, qq, [], ('10.0.0.9', 5353), data=b'late' + str(qq).encode())
@@ -169,6 +177,8 @@ QUICK = {
     'lookup': sh('lookup', close_max=1500),
     'at-purge-tick': sh('registered', close_max=10500, close_first=True),
     'idle-at-purge-tick': sh('raw-listener', close_max=10500, close_first=True),
+    'own-browser-starting': sh('own-browser', close_max=2000),
+    'own-browser-running': sh('own-browser', 'registered', close_max=16000),
 }
 THOROUGH = {
     'everything': sh('registered', 'registering', 'browser', 'lookup', close_max=800),
@@ -198,7 +208,7 @@ META = {
         'MulticastOutgoingQueue.async_ready', 'AsyncListener._respond_query', 'ServiceInfo.async_request',
     ],
     'bounds': {'t0': [5000, 2**40], 'close offset ms': '0..close_max (600..2000; 16000 in one thorough shape)', 'virtual time after close': '3 h', 'jitter': 'full intervals'},
-    'outside': ['browsers created directly by the application and not cancelled by it (async_close only removes the listeners it was given)', 'Zeroconf.close() from a non-loop thread (real threads, run_coroutine_threadsafe)', 'several instances sharing a loop', 'real sockets / transports'],
+    'outside': ['callbacks of a browser the application created itself and never cancelled when records are injected past the closed socket (its transmissions, timers and exceptions after the close ARE checked: close[own-browser-*])', 'Zeroconf.close() from a non-loop thread (real threads, run_coroutine_threadsafe)', 'several instances sharing a loop', 'real sockets / transports'],
     'stubs': env.STUBS,
     'float_sites': [],
     'assumptions': ['CrossHair 0.0.110 / z3 5.1.0', 'asyncio.gather / wait_for / timeout / sleep run unmodified on the fake loop'],
